@@ -208,12 +208,20 @@ package pbft
 //@ writers RoundState.LockedBlockParts: enterPrecommit, addVote, updateToState, SwitchToConsensus
 //@   props C04 C01
 
+// enterNewRound: the body is examined for the proposer rotation only (C16); what the other properties rely on stays assumed
+//@ ghost gValCopy Ref
 //@ func (*ConsensusState).enterNewRound
+//@   props C16
 //@   requires wfCS(cs)
 //@   assigns allbut(types.Vote)
-//@   trusted
-//@   ensures wfCS(cs)
-//@   ensures cs.RoundState.Height == height ==> cs.RoundState.Votes.round >= round
+//@   trusted-ensures wfCS(cs)
+//@   trusted-ensures cs.RoundState.Height == height ==> cs.RoundState.Votes.round >= round
+//@   nosafety
+//@   invariant-assumed cs.RoundState.Round >= 0
+//@   atcall Copy set gValCopy = result
+//@   atcall IncrementAccum assert [rotation-works-on-a-private-copy] calls(Copy) == 1 && arg_valSet == gValCopy
+//@   atcall IncrementAccum assert [rotation-advances-by-the-rounds-skipped] arg_times == round - cs.RoundState.Round
+//@   onwrite RoundState.Validators assert [round-validators-are-the-rotated-copy] (old(cs.RoundState.Round) < round && newval == gValCopy && calls(IncrementAccum) == 1) || (old(cs.RoundState.Round) >= round && newval == old(cs.RoundState.Validators))
 //@ func (*ConsensusState).enterPropose
 //@   requires wfCS(cs)
 //@   assigns allbut(types.Vote)
